@@ -451,7 +451,16 @@ func (w *rworld) apply(op Op) {
 			return
 		}
 		var err error
-		if w.guard("SaveChanges (mid-round)", func() { err = b.mpt.SaveChanges(context.Background(), w.pndb, false) }) {
+		if w.guard("SaveChanges (mid-round)", func() {
+			if w.prop == "C05" {
+				// a round saved in two steps records its dead nodes at both; the record of the final save replaces this one
+				if err = w.pndb.RecordDeadNodes(b.mpt.GetDeletes(), b.ver); err != nil {
+					return
+				}
+				w.stats.Inc("probe.mid-round-dead-record")
+			}
+			err = b.mpt.SaveChanges(context.Background(), w.pndb, false)
+		}) {
 			return
 		}
 		if err != nil {
